@@ -48,6 +48,17 @@ ASSUMPTIONS = [
     "scratch files live under /verif/scratch (git-ignored), never /tmp",
 ]
 
+def same_value(a, b):
+    """strict JSON equality, with NaN equal to NaN (documents may hold the non-finite numbers json accepts)"""
+    if isinstance(a, float) and isinstance(b, float) and a != a and b != b:
+        return True
+    if isinstance(a, list) and isinstance(b, list):
+        return len(a) == len(b) and all(same_value(x, y) for x, y in zip(a, b))
+    if isinstance(a, dict) and isinstance(b, dict):
+        return a.keys() == b.keys() and all(same_value(a[k], b[k]) for k in a)
+    return jeq(a, b)
+
+
 def scratch_dir():
     return os.path.join(ROOT, "scratch", "cli-%d" % os.getpid())  # per worker process
 
@@ -104,7 +115,7 @@ def lib_call(sub, expr, doc_bytes, opts):
             return "ok", env.compile(expr).findall(io.BytesIO(doc_bytes))
         if sub == "pointer":
             return "ok", jsonpath.pointer.resolve(expr, io.BytesIO(doc_bytes), unicode_escape=ue, uri_decode=opts["uri_decode"])
-        patch = json.loads(expr)
+        patch = json.loads(expr if not opts.get("patch_bytes") else opts["patch_bytes"].encode("latin-1"))
         if not isinstance(patch, list):
             return "err", JSONPatchError("not an array")
         return "ok", jsonpath.patch.apply(patch, io.BytesIO(doc_bytes), unicode_escape=ue, uri_decode=opts["uri_decode"])
@@ -139,7 +150,7 @@ def build_argv(sub, expr, doc_bytes, opts, tag):
         if opts["uri_decode"]:
             argv.append("-u")
     else:
-        argv.append(write("patch-%s.json" % tag, expr))
+        argv.append(write("patch-%s.json" % tag, expr if not opts.get("patch_bytes") else opts["patch_bytes"].encode("latin-1")))
         if opts["uri_decode"]:
             argv.append("-u")
     if opts["doc_file"]:
@@ -188,7 +199,7 @@ def judge(stats: Stats, sub, expr, doc_bytes, opts, tag, real=False):
         except ValueError:
             stats.fail("cli:%s:output-not-json" % sub, case, "json %s wrote %r, which is not one JSON text" % (" ".join(argv), text[:200]))
             return "bad"
-        if not jeq(val, want[1]):
+        if not same_value(val, want[1]):
             stats.fail("cli:%s:wrong-output:%s" % (sub, shape.split(":", 1)[1]), case, "json %s wrote %s, the library returns %s" % (" ".join(argv), short(val, 160), short(want[1], 160)))
             return "bad"
         body = text.strip("\n")
@@ -286,6 +297,54 @@ def t_matrix(sub, shard, nshards):
     return stats
 
 
+def t_encodings():
+    """documents and patch files in the encodings json.loads() detects from bytes (UTF-8 with BOM, UTF-16, UTF-32), and
+    documents holding the non-finite numbers json accepts (1e400, NaN): the tool must serialise what the library returns"""
+    stats = Stats()
+    n = 0
+    base = {"pretty": False, "no_unicode_escape": False, "no_type_checks": False, "uri_decode": False, "debug": False, "expr_file": False}
+    text_doc = json.dumps({"a": [1, 2, {"b": "x"}], "e": "\u00e9", "s": "abc"})
+    encs = ["utf-8", "utf-8-sig", "utf-16", "utf-16-le", "utf-16-be", "utf-32"]
+    nonfinite = b'{"big": 1e400, "neg": -1e400, "nan": NaN, "inf": Infinity, "a": [1, 2E+999], "ok": 1}'
+    try:
+        for enc in encs:
+            docb = text_doc.encode(enc)
+            for out_file in (False, True):
+                for pretty in (False, True):
+                    o = dict(base, doc_file=True, out_file=out_file, pretty=pretty)
+                    for q in ("$.a[*]", "$.e", "$..b"):
+                        judge(stats, "path", q, docb, o, "enc")
+                        n += 1
+                    for ptr in ("/a/2/b", "/e", ""):
+                        judge(stats, "pointer", ptr, docb, o, "enc")
+                        n += 1
+                    for penc in encs:
+                        patch_text = json.dumps([{"op": "add", "path": "/n", "value": "\u00e9"}, {"op": "remove", "path": "/s"}])
+                        o2 = dict(o, patch_bytes=patch_text.encode(penc).decode("latin-1"))
+                        judge(stats, "patch", patch_text, docb, o2, "enc")
+                        n += 1
+            stats.nt("enc", enc)
+        for out_file in (False, True):
+            for pretty in (False, True):
+                for doc_file in (False, True):
+                    o = dict(base, doc_file=doc_file, out_file=out_file, pretty=pretty)
+                    for q in ("$.big", "$.*", "$.a[1]", "$[?@ > 1]", "$.ok"):
+                        judge(stats, "path", q, nonfinite, o, "nf")
+                        n += 1
+                    for ptr in ("/big", "/neg", "/nan", "/inf", "/a", "/a/1", "", "/ok"):
+                        judge(stats, "pointer", ptr, nonfinite, o, "nf")
+                        n += 1
+                    for patch in ([{"op": "add", "path": "/x", "value": 1}], [{"op": "copy", "from": "/big", "path": "/y"}], [{"op": "remove", "path": "/nan"}]):
+                        judge(stats, "patch", json.dumps(patch), nonfinite, o, "nf")
+                        n += 1
+        stats.nt("nonfinite", "doc")
+    finally:
+        shutil.rmtree(scratch_dir(), ignore_errors=True)
+    stats.subspaces.append({"name": "6 byte encodings of document and patch file x sub-commands x output options; documents with non-finite numbers x 16 expressions x output/document options",
+                            "size": n, "exhaustive": True})
+    return stats
+
+
 @st.composite
 def cases(draw):
     doc = draw(D.containers(max_leaves=8, name_st=st.one_of(st.sampled_from(D.HIT), st.sampled_from(["0", "1", "é", "a/b", "m~n", " "]))))
@@ -354,7 +413,7 @@ def t_random(seed, n, real_every):
 
 
 def tasks(tier, seed):
-    ts = []
+    ts = [{"name": "encodings", "fn": "t_encodings"}]
     for sub, k in (("path", 5), ("pointer", 3), ("patch", 2)):
         ts += [{"name": "matrix-%s-%d" % (sub, i), "fn": "t_matrix", "kw": {"sub": sub, "shard": i, "nshards": k}} for i in range(k)]
     n = 1000 if tier == "quick" else 15000
